@@ -417,6 +417,9 @@ def h_scratch_pool(eng, abiname):
     d.isa, d.file_format = ABIS[abiname]
     abi = ABI.get(d)
     pool = [r.name for r in abi._scratch_registers()]
+    bad = sorted(set(pool) & (RESERVED[abiname] | SP_NAMES))
+    eng.check(not bad, "the scratch pool of %s contains reserved registers: %s" % (abiname, bad))
+    eng.check(len(set(pool)) == len(pool), "the scratch pool repeats a register")
     n = len(pool)
     k = eng.choose("clobbered", list(range(0, n + 1)))
     r = eng.choose("read", [x for x in (0, 1, 2) if k + x <= n])
